@@ -24,7 +24,7 @@ META = dict(
 
 
 class IpH(explore.Harness):
-    ALPH = ["req1", "req2", "deliver", "deliver-1.5", "replay-first", "replay-last", "future", "corrupt", "cancel", "timer"]
+    ALPH = ["req1", "req2", "deliver", "deliver-1.5", "replay-first", "replay-last", "future", "corrupt", "cancel", "timer", "odd-frame", "replay-odd"]
 
     def __init__(self, p):
         self.p = p
@@ -103,13 +103,30 @@ class IpH(explore.Harness):
             elif a == "timer":
                 if busy and self.loop.next_timer() is not None:
                     m.append(a)
+            elif a == "odd-frame":
+                # an authentic frame whose plaintext the HTTP layer cannot take (a response nobody waits for, an unknown start line)
+                if cur and not self.queue.get(cur.cid) and not self.part.get(cur.cid) and getattr(self, "n_odd", 0) < 2:
+                    m.append(a)
+            elif a == "replay-odd":
+                if cur and getattr(self, "odd_frames", None):
+                    m.append(a)
         return m
 
     def take(self, i):
         label = self.menu()[i]
         self.depth_used += 1
         cur = self._cur()
-        if label in ("req1", "req2"):
+        if label == "odd-frame":
+            self.n_odd = getattr(self, "n_odd", 0) + 1
+            sess = cur.session
+            plain = (b"BOGUS/9.9 200 OK\r\n\r\n", ipacc.http_response(200, b"{}"))[self.n_odd % 2]
+            g = sess.framer.seal_frames(plain)[0]
+            self.genuine[aeadspy.digest(g[2:])] = (cur.cid, sess.framer.a2c - 1)
+            self.odd_frames = getattr(self, "odd_frames", []) + [g]
+            cur.send(g)
+        elif label == "replay-odd":
+            cur.send(self.odd_frames[-1])
+        elif label in ("req1", "req2"):
             self.nreq += 1
             if label == "req1":
                 coro = self.rig.pairing.get_characteristics([(1, 9)])
